@@ -113,6 +113,22 @@ Proof.
   - destruct Hp as [Hp _]. rewrite (Permutation_length Hp), seq_length, map_length. reflexivity.
 Qed.
 
+(* the single-index variants: the head of the 1-element index lists, i.e. an index whose cost is the cost of the best / worst agent *)
+Theorem best_index_correct l d pi : costs_ok l -> is_argsort (map cost l) pi ->
+  option_map (nth_key (map cost l)) (gen_best_agent_index A l d pi) = option_map cost (hd_error (gen_best_agents A cost l 1 d)).
+Proof.
+  intros Hc Hp. unfold gen_best_agent_index. pose proof (best_indexes_correct l 1 d pi Hc Hp) as E.
+  destruct (gen_best_agents_indexes A l 1 d pi) as [|i r]; destruct (gen_best_agents A cost l 1 d) as [|b rb]; cbn in *; try discriminate; auto.
+  injection E as E1 _. rewrite E1. reflexivity.
+Qed.
+Theorem worst_index_correct l d pi : costs_ok l -> is_argsort (map cost l) pi ->
+  option_map (nth_key (map cost l)) (gen_worst_agent_index A l d pi) = option_map cost (hd_error (gen_worst_agents A cost l 1 d)).
+Proof.
+  intros Hc Hp. unfold gen_worst_agent_index. pose proof (worst_indexes_correct l 1 d pi Hc Hp) as E.
+  destruct (gen_worst_agents_indexes A l 1 d pi) as [|i r]; destruct (gen_worst_agents A cost l 1 d) as [|b rb]; cbn in *; try discriminate; auto.
+  injection E as E1 _. rewrite E1. reflexivity.
+Qed.
+
 (* sort-and-trim keeps the p cheapest in ascending order *)
 Theorem sort_and_trim_correct l p : costs_ok l ->
   let r := gen_sort_and_trim A cost l p in
